@@ -97,6 +97,8 @@ def family_parallel_artifact(irf, p_comp, p_mc):
 
 
 def family_oscillation(irf, p_osc, p_mc, pfid=False):
+    # the second oscillation always has a negative rate (growing / anti-causal branch of the implementation), so a
+    # damped-oscillation megacomplex mixes both rate signs in every declaration order
     labels = ["o1", "o2", "o3"]
     freq = {"o1": "f.1", "o2": "f.2", "o3": "f.3"}
     rate = {"o1": "g.1", "o2": "g.2", "o3": "g.3"}
@@ -107,7 +109,7 @@ def family_oscillation(irf, p_osc, p_mc, pfid=False):
     mcs = perm_apply(mcs, [i for i in p_mc if i < 2])
     spec = {"megacomplex": dict(mcs), "dataset": {"d1": {"megacomplex": [m for m, _ in mcs]}}}
     sign = -1.0 if pfid else 1.0
-    params = [["f.1", 520.0 if pfid else 55.0], ["f.2", 580.0 if pfid else 130.0], ["f.3", 610.0 if pfid else 210.0], ["g.1", sign * 0.8], ["g.2", sign * 0.3], ["g.3", sign * 1.5],
+    params = [["f.1", 520.0 if pfid else 55.0], ["f.2", 580.0 if pfid else 130.0], ["f.3", 610.0 if pfid else 210.0], ["g.1", sign * 0.8], ["g.2", -0.3], ["g.3", sign * 1.5],
               ["k.1", 1.2], ["k.2", 0.1]]
     return spec, params
 
